@@ -32,14 +32,17 @@ RULE = (
     "byte string that is no longer at its path must exist afterwards as an intact object "
     "(name == hashlib md5 of the bytes) in the cache directory read with os.walk; if an unrecoverable "
     "conflicting file was present the call must refuse (raise), and a PromptError's path must still "
-    "hold its bytes. Links half: a rule-based history over State.save_link / relinking checkout, user "
-    "modify / replace (new inode, optionally same mtime) / remove / re-create / add, rename or delete "
-    "a file inside a recorded directory, bystander files, and cleanup(used subset) = "
-    "get_unused_links + remove_links, with harness-owned mtimes (os.utime, drawn deltas, never an "
-    "mtime already seen for that path). Oracle: every returned/removed path was recorded by the "
-    "model, not listed as used and untouched since its record; everything else in the root and in "
-    "the cache is byte-identical. Non-trivial = an unrecoverable conflicting file was present "
-    "(checkout half) / a clean-up ran while a recorded path stood modified or replaced (links half); "
+    "hold its bytes. Links half: a rule-based history (trace = case) over State.save_link / relinking "
+    "checkout with state (copy, hardlink, symlink), user modify (in place or unlink+create) / replace "
+    "(new inode, optionally same mtime) / remove / re-create, add, rename or delete a file inside a "
+    "recorded directory, bystander files, and cleanup(used subset) = get_unused_links + remove_links, "
+    "with harness-owned mtimes (os.utime, previous mtime + drawn delta of 1 us .. 10^4 s either way, "
+    "never a (path, mtime) pair seen before; stat triple verified to change). Oracle: every "
+    "returned/removed path was recorded by the model's own record rules, is not listed as used and "
+    "its snapshot (inode, per file mtime + bytes) equals the record-time snapshot; everything else "
+    "under the root and in the cache is byte-identical. Non-trivial = an unrecoverable conflicting "
+    "file was present (checkout half) / a clean-up ran while a recorded, unlisted path stood modified "
+    "or replaced (links half); "
     "distinct = SHA-1 of the canonical case JSON."
 )
 ASSUMPTIONS = [
